@@ -3,6 +3,13 @@
 import json
 props=[json.loads(l) for l in open('/verif/properties.jsonl')]
 claimed={
+ "C02": dict(level="model_checking",
+   text="The real ExpandSpec (expander, loader, normaliser, cache, jsonpointer, swag) is executed from SSA on every reference graph of a bounded multi-document world; AbsoluteCircularRef and all model-map iteration orders are symbolic and decided per path by the solver; the oracle is an independent coinductive bisimulation of input and output unfoldings. This layer concretises $ref strings at parse points (stated in DESIGN 3): exhaustive over the bounded graphs, symbolic over options and orders. The wrong-document second hop of parameter/response chains is a known finding.",
+   note="Trusted: SSA executor, z3, M-json/M-reflect models, net/url as RFC 3986 reference in the oracle. Bounds: 3 documents, 3/4 slots, 12 keyword positions, 2/3 spellings.",
+   design="4 C02", technique="bounded symbolic execution of go/ssa over exhaustively enumerated small reference graphs (options and map orders symbolic) + SMT (z3), counterexample replay"),
+ "C03": dict(level="model_checking",
+   text="Same worlds and execution as C02; the oracle is a cycle analysis of the input graph: every $ref left in the output must resolve from the root to a node on an input cycle and have the form the AbsoluteCircularRef option prescribes; acyclic graphs must end $ref-free and byte-identical under a second expansion with an independent symbolic map order.",
+   note="As C02.", design="4 C03", technique="bounded symbolic execution of go/ssa over exhaustively enumerated small reference graphs (options and map orders symbolic) + SMT (z3), counterexample replay"),
  "C14": dict(level="model_checking",
    text="Bounded symbolic execution of the gob path: the repo's GobEncode/GobDecode wrappers (padding of security requirements, props/extensions envelopes, Ref via JSON) run from SSA on decoded symbolic documents, encoding/gob itself is a transmit-function model; JSON before/after is compared member-wise by the solver, so zero-valued validations and payload shapes are found as satisfying assignments. The two gob-inherent losses (zero behind pointer, empty arrays in payloads) are known findings with exact regions; everything else must hold.",
    note="Trusted: SSA executor, z3, M-gob (contract model of encoding/gob; each reported witness is replayed through the real library), M-json. Bounds as C01 depth 1.",
